@@ -47,6 +47,7 @@ func writesHash(f *eng.Fn, nd ast.Node, hname string) []*ast.CallExpr {
 
 func runC20(p *eng.Prog, r *eng.Report, tier string) {
 	c := &cx{p, r, tier}
+	c.r.Floor("C20.29", "functions scanned for package-level state", r17NoHiddenGlobalState(c, "C20.29"), 500)
 	r18ValuesAllKept(c, "C20.28")
 	r17HashIsAppendHash(c, "C20.27")
 	f := c.fn("C20.1", "disco", "Info.AppendHash")
